@@ -660,8 +660,8 @@ func (m *monC17) Final(w *World) {
 				deadline := si.FirstSeen + negotiationTimeout + c17Slack
 				// if the node was down at the deadline, allow until it was up again for the slack
 				deadline = m.extendForDowntime(w, node, si.FirstSeen, deadline)
-				if now < deadline {
-					continue
+				if now < deadline && si.TerminalAt == 0 {
+					continue // still inside its bound and not finished: nothing to judge yet
 				}
 				w.Probe("C17:requester-checked")
 				cancelSent := false
@@ -681,7 +681,14 @@ func (m *monC17) Final(w *World) {
 				if !cur.Terminal() || (si.TerminalAt > deadline) {
 					w.Violate("C17", "requester-not-cancelled:swap-"+typ+":"+shortState(cur.Current), "node %d: swap-%s request %.8s got no agreement, yet %v after creation the swap is in %s (terminal at %v)", node, typ, si.ID, now-si.FirstSeen, cur.Current, si.TerminalAt)
 				} else if !cancelSent && !m.neverReachedPeer(w, node, si) {
-					w.Violate("C17", "requester-no-cancel-message:swap-"+typ, "node %d: swap-%s request %.8s timed out but no cancel was sent to the peer", node, typ, si.ID)
+					// from which persisted state did the requester give up? (a request that went out
+					// in the instant before a crash, with the state that sends it not yet on disk, is
+					// a different situation from one the node knows it has sent)
+					from := "?"
+					if k := len(si.States); k >= 2 {
+						from = shortState(si.States[k-2])
+					}
+					w.Violate("C17", "requester-no-cancel-message:swap-"+typ+":after:"+from, "node %d: swap-%s request %.8s (which reached the peer) was given up in state %s without a cancel being sent to the peer", node, typ, si.ID, from)
 				}
 			} else if !r.IsSwapIn() && r.Role == 2 && r.Data.SwapOutAgreement != nil {
 				// swap-out responder: fee invoice unpaid at expiry => failed + cancel
